@@ -441,6 +441,11 @@ protected:
         else
         {
            m_freeListHeadPtr = allocate(1);
+
+           // The node is the only one of the free list until its
+           // value has been constructed, which can throw...
+           m_freeListHeadPtr->next = 0;
+
            newNode = m_freeListHeadPtr;
         }
 
